@@ -334,9 +334,11 @@ func (x *Exec) Concretize(t *smt.Term) uint64 {
 	if len(excl) > 4096 {
 		panic(pathEnd{endBudget, "enumeration of more than 4096 values"})
 	}
-	// alternative: same point, this value excluded too
-	nx := append(append([]string{}, excl...), vs)
-	x.pushAlt(Decision{Kind: "enum", Excl: nx})
+	// alternative: same point, this value excluded too (only if another value exists: saves a whole re-execution)
+	if x.check(smt.Not(smt.Eq(t, smt.BVConst(v, t.Sort.W)))) != smt.Unsat {
+		nx := append(append([]string{}, excl...), vs)
+		x.pushAlt(Decision{Kind: "enum", Excl: nx})
+	}
 	x.trace = append(x.trace, Decision{Kind: "enum", Val: vs})
 	x.S.Assert(smt.Eq(t, smt.BVConst(v, t.Sort.W)))
 	return v
